@@ -37,6 +37,8 @@ fn plan(prop: &str, tier: Tier) -> Option<Plan> {
         "C06" => (checks::c06::spaces(tier), checks::c06::meta(tier)),
         "C07" => (checks::c07::spaces(tier), checks::c07::meta(tier)),
         "C08" => (checks::c08::spaces(tier), checks::c08::meta(tier)),
+        "C09" => (checks::c09::spaces(tier), checks::c09::meta(tier)),
+        "C16" => (checks::c16::spaces(tier), checks::c16::meta(tier)),
         "C10" => (checks::c10::spaces(tier), checks::c10::meta(tier)),
         "C11" => (checks::c11::spaces(tier), checks::c11::meta(tier)),
         "C12" => (checks::c12::spaces(tier), checks::c12::meta(tier)),
